@@ -16,7 +16,8 @@ KINDS = ("named", "sub")
 T4 = ["r", "r.a", "r.a.x", "r.b", "r.c"]
 T6 = ["r", "r.a", "r.a.x", "r.a.y", "r.b", "r.b.x", "r.c"]
 T5 = ["r", "r.a", "r.a.x", "r.a.x.k", "r.b", "r.b.y"]
-TREES = {"T4": T4, "T6": T6, "T5": T5}
+TX = ["r", "r.a", "r.a.x", "r.b", "x", "x.y"]  # a second top-level package (e.g. an external library that was included)
+TREES = {"T4": T4, "T6": T6, "T5": T5, "TX": TX}
 
 
 def shape_name(rule: dict) -> str:
@@ -25,19 +26,24 @@ def shape_name(rule: dict) -> str:
     return f"{rule['verb']}.{rule['dir']}.{'except' if rule['exc'] else 'plain'}"
 
 
-def enum_subject_object_sets(tree, max_s=2, max_o=2, root=None):
-    """All (S, O) of pairwise-unrelated names, S and O disjoint, 1..max each; sorted lists."""
+def _side_sets(names, k, same_side_related):
+    for S in combinations(names, k):
+        if same_side_related or M.names_unrelated(S):
+            yield S
+
+
+def enum_subject_object_sets(tree, max_s=2, max_o=2, root=None, same_side_related=True):
+    """All (S, O), 1..max each, S and O disjoint and every subject unrelated to every object. Members of the SAME side
+    may be related (a package listed together with its sub package): the semantics (per-subject judgement, objects
+    jointly) are still unambiguous there. sorted lists."""
     names = [m for m in sorted(tree) if m != root]
     out = []
     for ks in range(1, max_s + 1):
-        for S in combinations(names, ks):
-            if not M.names_unrelated(S):
-                continue
+        for S in _side_sets(names, ks, same_side_related):
             rest = [n for n in names if n not in S and all(not M.related(n, s) for s in S)]
             for ko in range(1, max_o + 1):
-                for O in combinations(rest, ko):
-                    if M.names_unrelated(O):
-                        out.append((list(S), list(O)))
+                for O in _side_sets(rest, ko, same_side_related):
+                    out.append((list(S), list(O)))
     return out
 
 
@@ -56,7 +62,7 @@ def enum_rules(tree, max_s=2, max_o=2, root=None):
     for ks_n in range(1, max_s + 1):
         for S in combinations(names, ks_n):
             if not M.names_unrelated(S):
-                continue
+                continue  # the alias de-duplicates related subjects; C12's alias law covers those
             for ks in KINDS:
                 for d in ("import", "imported"):
                     rules.append(
@@ -148,36 +154,51 @@ def import_relation(draw, tree, focus=(), max_edges=16):
 
 
 @st.composite
-def unrelated_rule(draw, tree, max_s=3, max_o=3):
+def unrelated_rule(draw, tree, max_s=3, max_o=3, same_side_related=True):
+    """Rule whose subjects are unrelated to its objects; members of one side may be related to each other."""
     names = [m for m in tree]
     kind_s = draw(st.sampled_from(KINDS))
     kind_o = draw(st.sampled_from(KINDS))
     anything = draw(st.integers(0, 6)) == 0
-    pool = list(names)
-    chosen = []
-    want = draw(st.integers(1, max_s)) + (0 if anything else draw(st.integers(1, max_o)))
-    n_s = None
-    order = draw(st.permutations(pool))
-    for n in order:
-        if all(not M.related(n, c) for c in chosen):
-            chosen.append(n)
-            if len(chosen) == want:
-                break
+    order = draw(st.permutations(names))
     if anything:
-        S = sorted(chosen) if chosen else [tree[0]]
+        want = draw(st.integers(1, max_s))
+        chosen = []
+        for n in order:
+            if all(not M.related(n, c) for c in chosen):
+                chosen.append(n)
+                if len(chosen) == want:
+                    break
         d = draw(st.sampled_from(("import", "imported")))
         return {"verb": "should_not", "dir": d, "exc": False, "anything": True,
-                "subj": {"kind": kind_s, "names": S}, "obj": None}
-    if len(chosen) < 2:
-        # tree too small for two unrelated names: fall back to the alias
+                "subj": {"kind": kind_s, "names": sorted(chosen) or [tree[0]]}, "obj": None}
+    n_s = draw(st.integers(1, max_s))
+    n_o = draw(st.integers(1, max_o))
+    related_ok = same_side_related and draw(st.booleans())
+    S, O = [], []
+    for n in order:
+        if len(S) < n_s and all(not M.related(n, o) for o in O) and (related_ok or all(not M.related(n, x) for x in S)):
+            S.append(n)
+        elif len(O) < n_o and all(not M.related(n, x) for x in S) and (related_ok or all(not M.related(n, x) for x in O)):
+            O.append(n)
+    if not S or not O:
         d = draw(st.sampled_from(("import", "imported")))
         return {"verb": "should_not", "dir": d, "exc": False, "anything": True,
-                "subj": {"kind": kind_s, "names": [chosen[0] if chosen else tree[0]]}, "obj": None}
-    n_s = draw(st.integers(1, min(max_s, len(chosen) - 1)))
-    S, O = sorted(chosen[:n_s]), sorted(chosen[n_s: n_s + max_o])
+                "subj": {"kind": kind_s, "names": [(S or O or [tree[0]])[0]]}, "obj": None}
     v, d, e = draw(st.sampled_from(SHAPES))
     return {"verb": v, "dir": d, "exc": e, "anything": False,
-            "subj": {"kind": kind_s, "names": S}, "obj": {"kind": kind_o, "names": O}}
+            "subj": {"kind": kind_s, "names": sorted(S)}, "obj": {"kind": kind_o, "names": sorted(O)}}
+
+
+@st.composite
+def forests(draw, root="q", max_modules=14, extra=("x", "x.y", "x.y.z", "lib", "lib.u")):
+    """A tree plus, in a third of the draws, some single-component top-level modules with descendants
+    (what an architecture with included external libraries looks like)."""
+    tree = draw(trees(root=root, max_modules=max_modules))
+    if draw(st.integers(0, 2)) == 0:
+        add = draw(st.lists(st.sampled_from(list(extra)), min_size=1, max_size=3, unique=True))
+        tree = sorted(M.closure(set(tree) | set(add)))
+    return tree
 
 
 def rule_focus(tree, rule) -> set:
@@ -192,7 +213,7 @@ def rule_focus(tree, rule) -> set:
 
 @st.composite
 def rule_cases(draw, root="q", max_modules=14):
-    tree = draw(trees(root=root, max_modules=max_modules))
+    tree = draw(forests(root=root, max_modules=max_modules))
     rule = draw(unrelated_rule(tree))
     imports = draw(import_relation(tree, focus=rule_focus(tree, rule)))
     return {"tree": tree, "imports": [list(e) for e in imports], "rule": rule}
